@@ -151,6 +151,35 @@ fn chk_hseq(seed: u64, len: usize) -> Result<(), String> {
     }
     Ok(())
 }
+/// conversions at different zooms on several threads at once (nothing may be shared between calls, let alone threads)
+fn chk_hconc(seed: u64, per_thread: usize) -> Result<(), String> {
+    let handles: Vec<_> = (0..6u64)
+        .map(|t| {
+            std::thread::spawn(move || -> Result<(), String> {
+                let mut rng = Rng::new(seed ^ (t.wrapping_mul(0x9e37_79b9_7f4a_7c15)));
+                let z = [3u8, 9, 17, 24, 30, 31][t as usize];
+                let m = (1u64 << z) - 1;
+                for k in 0..per_thread {
+                    let (x, y) = (rng.next() & m, rng.next() & m);
+                    let id = util::tile_id(z, x, y);
+                    let want = ref_tile_id(z, x, y);
+                    if id != want {
+                        return Err(format!("thread {t}, call {k}: tile_id({z},{x},{y}) = {id}, the specification says {want} (other threads convert other zooms at the same time)"));
+                    }
+                    match util::zxy(want) {
+                        Ok(v) if v == (z, x, y) => {}
+                        other => return Err(format!("thread {t}, call {k}: zxy({want}) = {other:?}, expected ({z},{x},{y}) (other threads convert other zooms at the same time)")),
+                    }
+                }
+                Ok(())
+            })
+        })
+        .collect();
+    for h in handles {
+        h.join().map_err(|_| "a conversion thread panicked".to_string())??;
+    }
+    Ok(())
+}
 fn chk_zxy_id(id: u64) -> Result<(), String> {
     match util::zxy(id) {
         Ok((z, x, y)) => {
@@ -297,6 +326,10 @@ pub fn gen_c07(rng: &mut Rng, quick: bool, st: &mut Stats) -> Vec<String> {
         c.push(format!("chk_hseq {:x} {:x}", rng.next(), 300));
     }
     st.bump("conversion_sequences");
+    for _ in 0..(if quick { 3 } else { 12 }) {
+        c.push(format!("chk_hconc {:x} {:x}", rng.next(), if quick { 60_000 } else { 400_000 }));
+    }
+    st.bump("concurrent_conversions");
     // exhaustive direct oracle
     c.push(format!("chk_hilbert_exhaustive {:x}", if quick { 10 } else { 12 }));
     // lookups outside the grid
@@ -647,6 +680,12 @@ pub fn gen_c09(rng: &mut Rng, quick: bool, st: &mut Stats) -> Vec<String> {
             [200.5, -95.25, 214.7483647, 100.0, -214.7483648, -120.5],
             [-214.7483648, 214.7483647, 190.0, -190.0, 181.0, 91.0],
             [5e-8, -5e-8, 1e-7, -1e-7, 4.9e-8, -0.0],
+            // a centre of exactly (0, 0) inside lopsided bounds; bounds of exactly 0; every field 0
+            [-10.0, -20.0, 50.0, 80.0, 0.0, 0.0],
+            [10.0, 20.0, 50.0, 80.0, 0.0, 0.0],
+            [0.0, 0.0, 0.0, 0.0, 12.5, -7.25],
+            [0.0, 0.0, 0.0, 0.0, 0.0, 0.0],
+            [-180.0, -85.0511287, 180.0, 85.0511287, 0.0, 0.0],
         ];
         for _ in 0..(if quick { 20 } else { 300 }) {
             let mut v = [0f64; 6];
@@ -1015,6 +1054,10 @@ pub fn run_chk(toks: &[&str]) -> Option<String> {
             let v = [parse_f64(a), parse_f64(b), parse_f64(c), parse_f64(d), parse_f64(e), parse_f64(f)];
             let asy = *mode == "async";
             guard_chk(|| chk_hdr_in_archive(asy, v))
+        }
+        ["chk_hconc", seed, n] => {
+            let (seed, n) = (unhex_u64(seed), unhex_u64(n) as usize);
+            guard_chk(|| chk_hconc(seed, n))
         }
         ["chk_hseq", seed, len] => {
             let (seed, len) = (unhex_u64(seed), unhex_u64(len) as usize);
